@@ -221,6 +221,18 @@ theorem startContainer_closure_guarded :
     startContainerAssigns = ["wkr.starting[ctr.UUID] = rr", "wkr.state = StateRunning", "wkr.updated = now",
                              "wkr.busy = now", "wkr.running[ctr.UUID] = rr", "wkr.lastUUID = ctr.UUID"] := ⟨rfl, rfl⟩
 
+/-- `runSync`: after `getInstancesAndSync()` — failed or not; the `if err != nil` block only logs, it has
+no `continue`/`return` — the timer is re-armed: `C15.runSyncIter`. `getInstancesAndSync` fails while the
+list throttle holds off or when `Instances()` fails, otherwise runs `Pool.sync`. -/
+theorem runSync_skeleton :
+    runSyncSkeleton = ["call time.NewTimer => timer", "for {", "case {", "call wp.getInstancesAndSync => err",
+                       "if err != nil {", "}", "call timer.Reset", "}", "case {", "return", "}", "}"] ∧
+    getInstancesAndSyncSkeleton =
+      ["call wp.instanceSet.throttleInstances.Error => err", "if err != nil {", "return", "}",
+       "call wp.instanceSet.Instances => instances,err", "if err != nil {",
+       "call wp.instanceSet.throttleInstances.CheckRateLimitError", "return", "}", "call wp.sync", "return"] :=
+  ⟨rfl, rfl⟩
+
 /-- The quota back-off is a fixed minute (why quota scenarios get a longer deadline). -/
 theorem quota_ttl : "quotaErrorTTL = time.Minute" ∈ poolTimeConsts := by decide
 
